@@ -1298,6 +1298,59 @@ _install_numpy()
 CLASS_MODELS = {}
 
 
+# ---- operator module, functools.partial, itertools (thin wrappers over the interpreter's own operations) ---------------------------------
+def _install_stdlib_wrappers():
+    import operator as _op
+    import functools as _ft
+    import itertools as _it
+    for name, node in (('lt', ast.Lt), ('le', ast.LtE), ('eq', ast.Eq), ('ne', ast.NotEq), ('gt', ast.Gt), ('ge', ast.GtE)):
+        BUILTIN_MODELS[getattr(_op, name)] = (lambda n: lambda it, a, b: it.compare(n, a, b))(node)
+    for name, node in (('add', ast.Add), ('sub', ast.Sub), ('mul', ast.Mult), ('truediv', ast.Div), ('floordiv', ast.FloorDiv),
+                       ('mod', ast.Mod), ('pow', ast.Pow)):
+        BUILTIN_MODELS[getattr(_op, name)] = (lambda n: lambda it, a, b: it.binop(n, a, b))(node)
+    BUILTIN_MODELS[_op.not_] = lambda it, a: Not(it.truth(a))
+    BUILTIN_MODELS[_op.neg] = lambda it, a: it.binop(ast.Sub, 0, a)
+    BUILTIN_MODELS[_op.is_] = lambda it, a, b: a is b
+    BUILTIN_MODELS[_op.is_not] = lambda it, a, b: a is not b
+    BUILTIN_MODELS[_op.getitem] = lambda it, a, b: it.getitem(a, b)
+
+    def m_partial(it, func, *args, **kw):
+        def call(it_, *a, **k):
+            merged = dict(kw)
+            merged.update(k)
+            return it_.call(func, list(args) + list(a), merged)
+        fn = ModelFn(call, 'functools.partial(' + getattr(func, '__name__', '?') + ')')
+        fn.func, fn.args, fn.keywords = func, tuple(args), dict(kw)
+        return fn
+    CLASS_MODELS[_ft.partial] = m_partial
+
+    def m_reduce(it, f, xs, *init):
+        items = it.iterate(xs)
+        if init:
+            acc = init[0]
+        elif items:
+            acc, items = items[0], items[1:]
+        else:
+            raise RaiseEx(TypeError('reduce() of empty iterable with no initial value'))
+        for x in items:
+            acc = it.call(f, [acc, x], {})
+        return acc
+    BUILTIN_MODELS[_ft.reduce] = m_reduce
+    # itertools over concrete-length iterables: materialised (the interpreter's iteration is eager except for generators)
+    CLASS_MODELS[_it.chain] = lambda it, *xs: [v for x in xs for v in it.iterate(x)]
+    BUILTIN_MODELS[_it.chain.from_iterable] = lambda it, xs: [v for x in it.iterate(xs) for v in it.iterate(x)]
+
+    def m_islice(it, xs, *a):
+        items = it.iterate(xs)
+        if any(is_sym(v) for v in a):
+            raise Unsupported('islice with symbolic bounds')
+        return items[slice(*a)]
+    CLASS_MODELS[_it.islice] = m_islice
+
+
+_install_stdlib_wrappers()
+
+
 # ---- symbolic-length sequences (loop cuts / unbounded argument lists) ------------------------------------------------
 class SymSeq(SymObject):
     """Placeholder base: a sequence whose length is symbolic. Concrete subclasses live with the contracts
